@@ -41,6 +41,9 @@ def lattices(tier):
     # signer sets whose identifiers have the same concatenation ("a"+"b"+"cd" = "a"+"bc"+"d"): still different sets
     L.append(("frost-ambiguous-ids", consts("frost", {"constant"}, 2, True, msgs=("m1",), sets=("a,b,cd", "a,bc,d"),
                                             sids=("nil", "s1"), shares=("k1:a",))))
+    # signer sets of equal size that differ in exactly one member - the first, a middle or the last of the sorted list
+    L.append(("frost-neighbour-sets", consts("frost", {"constant"}, 2, True, msgs=("m1",), sets=("a,b,c", "a,b,d", "a,c,d", "a,b,e"),
+                                             sids=("nil", "s1"), shares=("k1:a",))))
     return L
 
 
